@@ -111,6 +111,48 @@ CLAIMS["C12"] = dict(
     design="DESIGN.md section 4, C12",
 )
 
+ABSTR = ("Large functions of the root package are verified with their callees abstracted (opt inline=0: results unconstrained, every array a callee's code can store to forgotten); "
+         "assertions are anchored at named instructions (the store to a field, the call that hands a packet on). ")
+
+CLAIMS["C02"] = dict(
+    text=("Deductive proof over ServerSession.handleRequestInner (callees and handlers abstracted) of the RFC 2326 state machine: each of the six stores to the "
+          "session state is one of the table's transitions, taken from the state the request found and for the method of the request; a request whose "
+          "method is illegal in the current state gets an error and status 400 and leaves the state unchanged; every exit returns a state related to the "
+          "entry state by at most one legal transition; checkState returns nil exactly when the state is in the allowed set (map membership modelled). "
+          "That no other function writes the state field is checked syntactically over the whole module on every run."),
+    note=TRUST + ABSTR + "One response per request, CSeq echo, request sequences, timeouts, keep-alive expiry and 'ends exactly once' are NOT decided. Handlers are assumed not to re-enter the session synchronously.",
+    design="DESIGN.md section 4, C02",
+)
+CLAIMS["C17"] = dict(
+    text=("Deductive proof of the no-downgrade decision points: isTransportSupported / pickFirstSupportedTransport accept a transport only if a secure profile "
+          "comes with TLS, UDP over RTSPS uses the secure profile, and UDP is not tunnelled; the client follows a redirect only if an rtsps connection stays "
+          "rtsps (assertion at the store of the new scheme); the client requests UDP over RTSPS only with the secure profile (assertions right after the check)."),
+    note=TRUST + ABSTR + "That SRTP encrypts and authenticates (pion/srtp), key material carried by MIKEY end to end, and tamper rejection are NOT decided.",
+    design="DESIGN.md section 4, C17",
+)
+CLAIMS["C18"] = dict(
+    text=("Deductive proof that every RTP and RTCP write path (client format/media, server session format/media, server stream format/media, multicast writer) "
+          "hands on only buffers whose length is at most the configured MaxPacketSize, SRTP/SRTCP overhead and MKI included (assertion at each call that passes "
+          "the encoded packet to a queue or reader), and that Server.Start / Client.Start accept a configuration only with MaxPacketSize <= 1472 and a "
+          "power-of-two WriteQueueSize."),
+    note=TRUST + ABSTR + "Assumed contracts: pion rtp MarshalTo never writes past the buffer; the SRTP wrapper adds exactly tag (10, SRTCP 14) plus MKI bytes (RFC 3711, read off pion/srtp). The queue's consumer side (UDP write, interleaved frame) is not followed further.",
+    design="DESIGN.md section 4, C18",
+)
+CLAIMS["C19"] = dict(
+    text=("Deductive proof of two peer-binding decision points: the client's UDP listener reaches the time-stamp update and the read callback only after the source IP "
+          "compared equal to the negotiated one and the source port equals the negotiated (or first-seen, with AnyPortEnable) port; a request arriving for a session "
+          "that is bound to another interleaved connection is answered 400 with an error and leaves the session state unchanged."),
+    note=TRUST + ABSTR + "The server's UDP dispatch (map keyed by a composite address) and the session lookup by creator IP in Server.runInner are NOT decided; effects on statistics and timeouts over histories are not decided.",
+    design="DESIGN.md section 4, C19",
+)
+CLAIMS["C20"] = dict(
+    text=("Deductive proof for the server's URL analysis helpers (stringsReverseIndex, getPathAndQuery, getPathAndQueryAndTrackID, findMediaByTrackID) that no URL makes them "
+          "index or slice out of range, that a track id returned without error is never empty and path/query are never longer than the URL's, that "
+          "URL.CloneWithoutCredentials yields a new URL without user info and otherwise equal fields, and that Media.URL yields a URL or an error."),
+    note=TRUST + "Agreement between client-side control-URL resolution and server-side analysis over all URLs (a statement over strings) is NOT decided.",
+    design="DESIGN.md section 4, C20",
+)
+
 NOT_APPLICABLE = {
     "C11": "process-level property over channels, goroutines and timeouts (no deadlock, cleanup of goroutines/sessions): not expressible as a contract on one call or one data structure; the leaf validators it relies on are covered under other properties",
     "C13": "liveness and schedule property (Close returns in bounded time under all interleavings, no leaked goroutine or socket, callback ordering): outside sequential contract-based verification",
